@@ -179,6 +179,16 @@ def oracle_files(c, sc, out):
                     c.violation(key, f"{r['who']} reported the job DONE before any body had ended successfully "
                                 "(its job process exited 0 without running)", data)
                     verdict = "violation"
+    # a launch when the marker exists: a scheduler cannot hold the job lock while a body ends successfully, so a Popen
+    # logged after a successful end was decided without looking at the marker under the lock (it truncates .out/.err)
+    first_okk = next((r["i"] for r in cases.body_rows(rows, 1) if r["kind"] == "end" and r["res"] == "ok"), None)
+    late_launch = [r["who"] for r in rows if r["who"] != "P" and r["kind"] == "R" and r["rest"][:2] == ["aio_run", "1"]
+                   and first_okk is not None and r["i"] > first_okk]
+    if late_launch and not m.get("exit0"):
+        c.violation("C05:launch-after-marker", f"{late_launch} launched a process for the job after its body had ended "
+                    "successfully (marker present): the launch does nothing but truncate the output files of the successful "
+                    f"run (<name>.out now: {out['snapshot']['1'].get('out')!r})", data)
+        verdict = "violation"
     if m["family"] == "done-marker":
         want = 1 if m["real_first"] else 0
         later = [r for r in sc["runs"] if r["sid"] != "S9"]
